@@ -22,7 +22,7 @@ ASSUMPTIONS = [
 
 def plan(tier, seed):
   q = tier == "quick"
-  return [{"hashseed": (seed * 59 + i) % 1051, "part": i, "nparts": 16, "designs": 16 if q else 300, "params": 6 if q else 60} for i in range(16)]
+  return [{"hashseed": (seed * 59 + i) % 1051, "part": i, "nparts": 16, "designs": 16 if q else 300, "params": 6 if q else 60, "ifcs": 4 if q else 40} for i in range(16)]
 
 
 def thresholds(tier):
@@ -163,6 +163,7 @@ def run_shard(sh):
   T.corpus_stream(sh, "sv", part, nparts, mech)
   T.stdlib_stream(sh, "sv", part, nparts, mech)
   T.param_stream(sh, "sv", sh.params.get("params", 6), mech)
+  T.ifc_stream(sh, "sv", sh.params.get("ifcs", 4), mech)
   T.specgen_stream(sh, "sv", sh.params["designs"], knobs, mech, "gen")
   if part == 0:
     for name, (src, top) in PROBES.items():
